@@ -27,7 +27,7 @@ META = {
              "DESIGN.md §6 C12", S1NOTE, "stateful model-based property testing (rapid); exact deadline arithmetic in the model"),
     "C13": m("Scripts with TTLs from nanoseconds to years and clock jumps up to 100 years; at every CleanUp each model entry that expired more than one tick ago (and was written more than one tick ago) must already have been reported and removed from EstimatedSize.",
              "DESIGN.md §6 C13", S1NOTE + " The write-versus-sweep race of the statement (clock gate) is not in the registered check yet.", "stateful property testing (rapid); sweep-deadline obligation checked at every CleanUp"),
-    "C15": m("The key index is tested directly: a sequential model test against a Go map (growth, shrink, chains, early-stopped Range) and free-running single-writer-register programs with filler waves, varied GOMAXPROCS and delays at the resize hand-off; exact interval oracle for reads, exactly-once callbacks, counters, Range guarantees, Size at quiescence.",
+    "C15": m("The key index is tested directly: a sequential model test against a Go map (growth, shrink, chains, early-stopped Range) and free-running single-writer-register programs with filler waves, varied GOMAXPROCS and delays at the resize hand-off; exact interval oracle for reads, exactly-once callbacks, counters, Range guarantees, Size at quiescence. Both are repeated over key sets that a read-only probe of the current table's hash steers into 1-3 bucket chains (chains of dozens of linked buckets, optionally equal meta hashes), with churn of further colliding keys while readers walk the chains.",
              "DESIGN.md §6 C15", S4NOTE, "model-based property testing + concurrent single-writer-register interval oracle"),
     "C16": m("queue.MPSC is tested directly: sequential bounded-FIFO model over all capacity pairs, and free-running producers/consumer programs with per-producer sequence numbers, exactly-once delivery and a refusal-justification bound.",
              "DESIGN.md §6 C16", S4NOTE, "model-based property testing + concurrent exactly-once/order oracle"),
